@@ -59,9 +59,9 @@ Explain(S, P, R, tnow, c) ==
   THEN "D-C25-noncurrent-order"
   ELSE ""
 
-\* walk the events of one line; w = [S, P, now, nuid, touched, out]
+\* walk the events of one line; w = [S, P, S0, now, nuid, touched, out]
 Step(w, e, i, R) ==
-  CASE e.e = "state" -> [w EXCEPT !.S = NormStore(e), !.P = NormStore(e), !.now = e.now, !.touched = {}]
+  CASE e.e = "state" -> [w EXCEPT !.S = NormStore(e), !.P = NormStore(e), !.S0 = NormStore(e), !.now = e.now, !.touched = {}]
     [] e.e = "list" -> [w EXCEPT !.P = w.S]
     [] e.e = "replace" -> [w EXCEPT !.S = Replace(w.S, e.key, e.etag, w.now, w.nuid),
                                     !.nuid = w.nuid + 1, !.touched = w.touched \cup {e.key}]
@@ -69,8 +69,13 @@ Step(w, e, i, R) ==
          LET c == CallOf(e)
              a == Apply(w.S, c, w.now, w.nuid, FALSE)
              okStore == ~e.check \/ (a.res = e.res /\ Proj(a.S, c.key) = e.after)
-             ok == Allowed(w.S, w.P, R, w.now, c)
-                   \/ (c.key \in w.touched /\ DueOKSP(w.S, w.P, R, w.now, c) /\ KeepsOKSP(w.S, w.P, R, w.now, c))
+             \* the preference for expiration is also satisfied if the expiration of this very
+             \* thing was not surely due in the last observed state before the sweep's passes
+             \* (S0): an earlier pass of the same sweep may have removed its successor
+             expOK == \/ c.key \in w.touched
+                      \/ ExpWinsOKSP(w.S, w.P, R, w.now, c)
+                      \/ (SameThing(w.S, w.S0, c) /\ ExpWinsOK(w.S0, R, w.now, c, Truth))
+             ok == DueOKSP(w.S, w.P, R, w.now, c) /\ KeepsOKSP(w.S, w.P, R, w.now, c) /\ expOK
              tag == Explain(w.S, w.P, R, w.now, c)
              v == IF ~okStore THEN "storemodel"
                   ELSE IF ~e.judge \/ e.res # "ok" \/ ~a.eff THEN "ok"
@@ -89,7 +94,7 @@ RECURSIVE Walk(_, _, _, _)
 Walk(w, evs, i, R) == IF i > Len(evs) THEN w ELSE Walk(Step(w, evs[i], i, R), evs, i + 1, R)
 
 Flags(r) ==
-  Walk([S |-> EmptyStore, P |-> EmptyStore, now |-> 0, nuid |-> 100, touched |-> {}, out |-> <<>>],
+  Walk([S |-> EmptyStore, P |-> EmptyStore, S0 |-> EmptyStore, now |-> 0, nuid |-> 100, touched |-> {}, out |-> <<>>],
        r.events, 1, NormRules(r.rules)).out
 
 Report(i) ==
